@@ -169,8 +169,7 @@ class ProgressIndicator(object):
         Overwrites a previous message to the output.
         """
         if self._io.supports_ansi():
-            self._io.write("\x0D\x1B[2K")
-            self._io.write(message)
+            self._io.write("\x0D\x1B[2K" + message)
         else:
             self._io.write_line(message)
 
